@@ -67,6 +67,59 @@ pub fn ok_bag_unwrap(bag: ConcurrentOrderedBag<String>) -> SplitVec<String> {
 }
 
 // ---------------------------------------------------------------- C06-RECV / C06-MUT
+// ---- C14-NOWAIT controls -------------------------------------------------------------------------
+use orx_concurrent_iter::{ConcurrentIterX, HasMore};
+
+/// waits until other threads have drained the iterator: every exit depends on `has_more`
+pub fn bad_waits_for_progress<I: ConcurrentIterX>(iter: &I, first: usize) {
+    while let HasMore::Yes(remaining) = iter.has_more() {
+        if remaining < first {
+            break;
+        }
+        std::thread::yield_now();
+    }
+}
+
+/// the same flag computed under a branch (control dependence only)
+pub fn bad_waits_flag<I: ConcurrentIterX>(iter: &I) {
+    loop {
+        let done = match iter.has_more() {
+            HasMore::No => true,
+            _ => false,
+        };
+        if done {
+            break;
+        }
+        std::thread::yield_now();
+    }
+}
+
+/// blocks on a channel
+pub fn bad_blocks_on_channel(rx: &std::sync::mpsc::Receiver<usize>) -> usize {
+    rx.recv().unwrap_or(0)
+}
+
+/// bounded polling: one exit does not depend on other threads
+pub fn ok_bounded_poll<I: ConcurrentIterX>(iter: &I) -> usize {
+    let mut polls = 0;
+    for _ in 0..1000 {
+        if let HasMore::No = iter.has_more() {
+            break;
+        }
+        polls += 1;
+    }
+    polls
+}
+
+/// own progress: every iteration pulls an element itself
+pub fn ok_drains_itself<I: ConcurrentIterX>(iter: &I) -> usize {
+    let mut n = 0;
+    while let Some(_x) = iter.next() {
+        n += 1;
+    }
+    n
+}
+
 pub mod par {
     pub mod collect_into {
         pub mod collect_into_core {
